@@ -56,7 +56,11 @@ struct HistEngine : Engine {
 		int ndocs = (int)w.range(1, 6);
 		Json docs = Json::array();
 		for (int i = 0; i < ndocs; i++) docs.push(pick_doc(w, dopt));
+		// sometimes one document is OPML: conversions of it carry EXT_PARSE_OPML and may replace the caller's source in place (documented)
+		int opml_doc = -1;
+		if (!opml_corpus().empty() && w.chance(1, 6)) { opml_doc = (int)w.below((uint64_t)ndocs); docs[(size_t)opml_doc] = opml_corpus()[w.below(opml_corpus().size())]; }
 		p["docs"] = docs;
+		p["opml_doc"] = opml_doc;
 		// a few simulated files so that transclusion and assets can be part of the noise
 		Json world = Json::object(), files = Json::object();
 		auto file = [&](const std::string & path, const std::string & content) { Json f = Json::object(); Json v = Json::array(); v.push(content); f["versions"] = v; files[path] = f; };
@@ -99,6 +103,8 @@ struct HistEngine : Engine {
 			if (k < 30 || (!use_eng && k < 70)) {
 				o["k"] = "CONV"; o["family"] = w.chance(1, 2) ? "s" : "d"; o["call"] = w.chance(2, 3) ? "convert" : "to_data";
 				o["doc"] = (int64_t)w.below((uint64_t)ndocs); o["fmt"] = fmt_for(); o["ext"] = (int64_t)exts[w.below(exts.size())]; o["lang"] = (int64_t)w.below(7);
+				if ((int)o.geti("doc") == opml_doc) o["ext"] = (int64_t)((unsigned long)o.geti("ext") | X_PARSE_OPML);
+				if (o.gets("family") == "d" && w.chance(1, 8)) { o["call"] = "to_file"; }      // mmd_d_string_convert_to_file through the simulated file layer
 				if (o.gets("call") == "to_data") {
 					if (use_pkg && w.chance(1, 2)) { static const int pf[] = {FMT_EPUB, FMT_ODT, FMT_TEXTBUNDLE_COMPRESSED, FMT_ITMZ}; o["fmt"] = pf[w.below(4)]; }
 					if (w.chance(1, 2)) o["dir"] = "/sim/a";
@@ -109,6 +115,7 @@ struct HistEngine : Engine {
 				o["slot"] = s;
 				if (!S.live) {
 					o["k"] = "E_CREATE"; o["doc"] = (int64_t)w.below((uint64_t)ndocs); o["ext"] = (int64_t)exts[w.below(exts.size())]; o["with"] = w.chance(1, 2) ? "string" : "dstring";
+					if ((int)o.geti("doc") == opml_doc) o["ext"] = (int64_t)((unsigned long)o.geti("ext") | X_PARSE_OPML);
 					S = PSlot(); S.live = true; S.doc = (int)o.geti("doc");
 				} else if (j < 30) { o["k"] = "E_CONVERT"; o["fmt"] = fmt_for(); o["env"] = gen_env(en); S.parsed = true; S.exported = true; S.stale = false; }
 				else if (j < 38) {
@@ -126,7 +133,9 @@ struct HistEngine : Engine {
 				else if (j < 83) { o["k"] = "E_SET_LANG"; o["lang"] = (int64_t)w.below(7); }
 				else if (j < 86) {
 					// the caller replaces the text the engine works on (mmd_engine_d_string / its own DString) - one engine, several documents
-					o["k"] = "E_SET_TEXT"; o["doc"] = (int64_t)w.below((uint64_t)ndocs); S.doc = (int)o.geti("doc"); S.parsed = false; S.exported = false;
+					o["k"] = "E_SET_TEXT"; o["doc"] = (int64_t)w.below((uint64_t)ndocs);
+					if ((int)o.geti("doc") == opml_doc || S.doc == opml_doc) continue;       // an engine's extensions are fixed at creation
+					S.doc = (int)o.geti("doc"); S.parsed = false; S.exported = false;
 				}
 				else if (j < 92) { o["k"] = "E_RESET"; S.parsed = false; S.exported = false; S.stale = false; }
 				else { o["k"] = "E_FREE"; S = PSlot(); }
@@ -214,6 +223,12 @@ struct HistEngine : Engine {
 		} else {
 			DString * d = IN_LIB(d_string_new(doc.c_str()));
 			if (call == "convert") { char * r = IN_LIB(mmd_d_string_convert(d, ext, fmt, lang)); if (r) out = r; free(r); }
+			else if (call == "to_file") {
+				IN_LIB_V(mmd_d_string_convert_to_file(d, ext, fmt, lang, dir, "/sim/a/out.bin"));
+				auto it = g_sim.files.find("/sim/a/out.bin");
+				out = it == g_sim.files.end() ? std::string("<no file written>") : it->second.written;
+				if (it != g_sim.files.end()) g_sim.files.erase(it);
+			}
 			else { DString * r = IN_LIB(mmd_d_string_convert_to_data(d, ext, fmt, lang, dir)); if (r) { out.assign(r->str, r->currentStringLength); IN_LIB_V(d_string_free(r, true)); } }
 			src_after->assign(d->str, d->currentStringLength);
 			if (d->currentStringBufferSize <= d->currentStringLength) *src_after += "<capacity-corrupt>";
@@ -267,7 +282,9 @@ struct HistEngine : Engine {
 			if (kind == "CONV") {
 				const std::string & d = doc_of(op);
 				out = conv_call(op, d, &src_after); src_want = d; produced = true;
-				if (src_after != src_want) { viol = Json::object(); viol["clause"] = "source_modified"; viol["op"] = (int64_t)k; viol["detail"] = "caller's source changed during " + kind; }
+				bool inplace_ok = ((unsigned long)op.geti("ext") & (X_PARSE_OPML | X_PARSE_ITMZ)) != 0;     // the documented in-place replacement
+				if (inplace_ok && src_after != src_want) probes["op_with_opml_inplace_replacement"]++;
+				if (src_after != src_want && !inplace_ok) { viol = Json::object(); viol["clause"] = "source_modified"; viol["op"] = (int64_t)k; viol["detail"] = "caller's source changed during " + kind; }
 			} else if (kind == "E_CREATE") {
 				if (S.e) break;
 				const std::string & d = doc_of(op);
@@ -315,6 +332,8 @@ struct HistEngine : Engine {
 				if (S.e) {
 					// second clause: the source the caller handed over is unchanged
 					DString * d = S.e->dstr;
+					bool inplace_ok = (S.e->extensions & (X_PARSE_OPML | X_PARSE_ITMZ)) != 0;
+					if (inplace_ok) S.text.assign(d->str, d->currentStringLength);      // the engine's text is now the converted text (documented)
 					if (std::string(d->str, d->currentStringLength) != S.text || d->currentStringBufferSize <= d->currentStringLength) {
 						viol = Json::object(); viol["clause"] = "source_modified"; viol["op"] = (int64_t)k; viol["detail"] = "engine source changed during " + kind;
 					}
